@@ -23,7 +23,7 @@ func (x *Exec) appendOne(f *frame, in ssa.Value, args []Val, et types.Type, cn, 
 	newRef := x.define(x.fresh("new"), "Int", sx("+", st.allocTop, "1"))
 	st.allocTop = newRef
 	ncap := x.havocConst("appcap", "Int")
-	x.assume(st, and(sx(">", ncap, ln), sx("<=", ncap, "9223372036854775807")))
+	x.assume(st, and(sx(">", ncap, ln), sx("<=", ncap, "281474976710656")))
 	res := x.define(x.fresh("app"), "Slice", ite(fits,
 		sx("mkslice", sx("sbase", s), sx("soff", s), sx("+", ln, "1"), sx("scap", s)),
 		sx("mkslice", newRef, "0", sx("+", ln, "1"), ncap)))
